@@ -33,7 +33,7 @@ static const char* scn_desc(const scn_t* s) { static char b[200]; snprintf(b, si
 static ref_arena RA; static ref_buf IMG; static char PATH[64]; static int FD = -1; static int64_t TOTAL_ROWS;
 static void build_file(const scn_t* s) {
     rfile_t f; memset(&f, 0, sizeof f);
-    if (s->shape >= 4) {     /* large pages: 4 = a dictionary-encoded INT32 column of 70 000 values in one page (+ a plain INT64 column); 5 = two INT64 columns of 16 000 values (128 KB page bodies) */
+    if (s->shape == 4 || s->shape == 5) {     /* large pages: 4 = a dictionary-encoded INT32 column of 70 000 values in one page (+ a plain INT64 column); 5 = two INT64 columns of 16 000 values (128 KB page bodies) */
         f.ncols = 2; f.N = s->shape == 4 ? 70000 : 16000; f.nrg = 1; f.codec = s->codec; f.crc = true; f.dict_offset_present = true; f.pattern = 0;
         f.col[0].ptype = s->shape == 4 ? PT_INT32 : PT_INT64; f.enc[0] = s->shape == 4 ? ENC_RLE_DICT : ENC_PLAIN; f.col[1].ptype = PT_INT64; f.enc[1] = ENC_PLAIN; if (s->shape == 5) f.pattern = 3;
         ref_buf_free(&IMG); ref_buf_init(&IMG); ref_arena_free(&RA); static ref_coldata colsb[4]; if (rf_build(&RA, &f, &IMG, NULL, 0, NULL, colsb)) mc_harness_error("reference writer failed");
@@ -186,7 +186,7 @@ static int LAST_ROUNDS, LAST_NOFIX;
 static void run_scenario(const scn_t* s) {
     LAST_ROUNDS = 0; LAST_NOFIX = 0;
     build_file(s); NRACY = 0; NPEND = 0;                      /* every case is self-contained: the promoted set is rebuilt per case */
-    dfs_t D; memset(&D, 0, sizeof D); D.s = s; D.detect = s->nt <= 4 && s->shape < 4;     /* large pages exceed the detector's shadow table */
+    dfs_t D; memset(&D, 0, sizeof D); D.s = s; D.detect = s->nt <= 4 && s->shape != 4 && s->shape != 5;     /* large pages exceed the detector's shadow table */
     run_exec(s, NULL, 0, 1, 0);
     if (TR->status != SCH_OK) { char key[120]; snprintf(key, sizeof key, "reference-run-failed.%s", MODE_N[s->mode]); mc_fail(key, "%s: %s", scn_desc(s), TR->msg); return; }
     D.expected = TR->outcome; snprintf(D.expected_detail, sizeof D.expected_detail, "%s", TR->detail);
@@ -219,7 +219,7 @@ static void enumerate(void) {
             if (mode == 3 && !(kind == 1 && nt == 2 && shape == 0 && bsi == 1 && ci <= 1 && bound <= 2)) continue;      /* mixed I/O paths: two independent readers, up to two deviations */
             if (ci >= 3 && (bound > 1 || nt > 3 || bsi == 0 || (shape != 0 && shape != 3) || (kind == 1 && (nt != 2 || shape != 0)))) continue;      /* GZIP and LZ4: whole-page batches, 2-3 threads, two shapes, c <= 1 */
             if (bound == 3 && !(kind == 0 && mode == 0 && nt == 2 && ((shape == 5 && ci == 1 && bsi == 1) || (mc_thorough() && shape == 0 && ci == 0 && bsi == 0)))) continue;     /* three deviations: the two-column large-page file (a failed prefetch is retried in the main region, so a wrong result needs a third switch) */
-            if (shape >= 4) {                                                                                   /* large pages: one batch for the whole file, SNAPPY and ZSTD (page loads inside the team), 2-3 threads */
+            if (shape == 4 || shape == 5) {                                                                     /* large pages: one batch for the whole file, SNAPPY and ZSTD (page loads inside the team), 2-3 threads */
                 if (kind || bsi == 0 || ci == 0 || nt > 3 || mode == 1) continue; if (shape == 4 && bound > 1) continue; if (shape == 5 && (mode != 0 || (bound == 2 && !mc_thorough() && !(nt == 2 && ci == 1)))) continue;
                 s.bs = shape == 4 ? 70000 : 16000;
             }
